@@ -142,6 +142,18 @@ def r01_3(ctx, rr):
     if cb:
         wpb_val = int_of(Termizer(F, cb[0]).term(cb[0].body))
     rr.instances += 1
+    if st["step"] is None:
+        # the while form: `let mut i = 0; while i < num_words { ..; i += STEP }` (the step of the outermost counted loop)
+        for lp in [x for x in walk(nb.body) if x.get("k") == "Loop"]:
+            incs = [x for x in walk(lp["body"]) if x.get("k") == "AssignOp" and x["op"] == "+=" and x["l"].get("k") == "Path" and x["l"].get("res") == "local"
+                    and not any(p_.get("k") == "Loop" and p_ is not lp for p_ in pm.get(id(x), ()) if any(q is p_ for q in walk(lp["body"])))]
+            conds = [x for x in walk(lp["body"]) if x.get("k") == "If" and x["c"].get("k") == "Binary" and x["c"]["op"] in ("<", ">", "<=", ">=")]
+            for inc in incs:
+                if any(c["c"]["l"].get("id") == inc["l"]["id"] or c["c"]["r"].get("id") == inc["l"]["id"] for c in conds):
+                    st["step"] = Termizer(F, nb).term(inc["r"])
+                    break
+            if st["step"] is not None:
+                break
     rr.check(st["step"] is not None and (st["step"] == ("def", "rank_sel::rank9::Rank9::WORDS_PER_BLOCK") or st["step"] == ("int", wpb_val)), "Rank9::new:block-step", "Rank9::new must step over the words by WORDS_PER_BLOCK; found %s" % (tshow(st["step"]) if st["step"] else None), nb.span)
     rr.instances += 1
     rr.check(st["inner"] is not None and (int_of(st["inner"]) == wpb_val or st["inner"] == ("def", "rank_sel::rank9::Rank9::WORDS_PER_BLOCK")), "Rank9::new:inner-range", "Rank9::new must fill the relative counters for words 1..WORDS_PER_BLOCK (=%s); found 1..%s" % (wpb_val, tshow(st["inner"]) if st["inner"] else None), nb.span)
